@@ -537,6 +537,26 @@ func runC04(c *core.Ctx) {
 			}
 			w.Write(p, k.content())
 		}
+		if w.Hist == 6 || (c.Thorough() && w.Hist%1500 == 6) {
+			// a staging area of 65,535 entries (the file is put there as a whole: staging them one by one would take minutes),
+			// then add and rm of single paths: the count passes 65,536 = 2^16
+			var es []gitfmt.IndexEntry
+			id := gitfmt.BlobID([]byte("x\n"))
+			for i := 0; i < 65535; i++ {
+				es = append(es, gitfmt.IndexEntry{ID: id, Path: fmt.Sprintf("w/f%05d", i)})
+			}
+			w.Write("w/f00000", []byte("x\n"))
+			k.goit("add", "w/f00000") // the blob every crafted entry names is in the store
+			w.Write(".goit/index", gitfmt.EncodeIndex(es))
+			w.Write("new.txt", []byte("new\n"))
+			w.Write("w/f00003", []byte("x\n"))
+			k.goit("add", "new.txt")
+			k.goit("add", "w/f00003")
+			k.goit("rm", "w/f00002")
+			k.goit("add", "new.txt")
+			c.Count("scale.staging-area-of-65536-entries")
+			return
+		}
 		if w.Hist%8 == 3 {
 			// a tracked link and the file it points to, removed by one command in either order
 			w.Write("lk/tgt", k.content())
